@@ -1,1 +1,8 @@
-//! cal-level harnesses
+//! Harnesses that need iceoryx2-cal (feature `cal`): shm allocators, named-concept isolation,
+//! zero-copy connection and event hand-shake over `KStorage`.
+pub mod kstorage;
+pub mod ktrigger;
+pub mod c15cal;
+pub mod c19iso;
+pub mod conn;
+pub mod c05ev;
